@@ -88,7 +88,11 @@ CmpDesc(D1, D2) ==
             ELSE IF D2.p = 0 THEN (IF D1.p = D1.q THEN 0 ELSE 1)
             ELSE -Sgn(D2.p * D2.p * D1.q - (D1.q - D1.p) * D2.q) )
 
+\* TLC evaluates operator arguments and LET definitions of state level lazily and
+\* repeatedly; descriptors are therefore always collected in a tuple (evaluated eagerly)
+\* and reduced by FoldLeft (Java override, works on values).
 MinDesc2(D1, D2) == IF CmpDesc(D2, D1) < 0 THEN D2 ELSE D1
+MinTuple(ds) == FoldLeft(MinDesc2, ds[1], ds)
 
 \* distance of the point x to the edge ab (a = b: a point)
 PtEdgeDesc(x, a, b) ==
@@ -96,13 +100,18 @@ PtEdgeDesc(x, a, b) ==
     ELSE LET c == Cross(a, b)
          IN  IF Det(a, c, x) < 0 /\ Det(b, c, x) > 0
              THEN [k |-> "s", p |-> Dot(x, c) * Dot(x, c), q |-> Norm2(x) * Norm2(c)]
-             ELSE MinDesc2(CosDesc(x, a), CosDesc(x, b))
+             ELSE MinTuple(<<CosDesc(x, a), CosDesc(x, b)>>)
 
-\* distance between the edges a0a1 and b0b1
+\* distance between the edges a0a1 and b0b1 (either may be a point).  The four
+\* vertex-to-edge descriptors are put into a tuple first: TLC evaluates a tuple eagerly,
+\* nested operator arguments lazily (and, at state level, repeatedly).
 PairDesc(a0, a1, b0, b1) ==
-    IF a0 # a1 /\ b0 # b1 /\ CrossingSign(a0, a1, b0, b1) = "CROSS" THEN Zero
-    ELSE MinDesc2(MinDesc2(PtEdgeDesc(a0, b0, b1), PtEdgeDesc(a1, b0, b1)),
-                  MinDesc2(PtEdgeDesc(b0, a0, a1), PtEdgeDesc(b1, a0, a1)))
+    IF a0 = a1 /\ b0 = b1 THEN CosDesc(a0, b0)
+    ELSE IF a0 = a1 THEN PtEdgeDesc(a0, b0, b1)
+    ELSE IF b0 = b1 THEN PtEdgeDesc(b0, a0, a1)
+    ELSE IF CrossingSign(a0, a1, b0, b1) = "CROSS" THEN Zero
+    ELSE MinTuple(<<PtEdgeDesc(a0, b0, b1), PtEdgeDesc(a1, b0, b1),
+                    PtEdgeDesc(b0, a0, a1), PtEdgeDesc(b1, a0, a1)>>)
 
 (***************************************************************************)
 (* W1 scene                                                                *)
@@ -182,18 +191,19 @@ Tgt == TargetList[t[1]]
 Far == t[2] = 1
 Sg(p) == IF Far THEN Neg(p) ELSE p
 
+\* the target's edges as a tuple of pairs, negated for furthest-edge queries
 TgtEdgesOf(tg) ==
-    IF tg.k \in {"pt", "cloud"} THEN [i \in 1..Len(tg.v) |-> <<tg.v[i], tg.v[i]>>]
-    ELSE [i \in 1..(Len(tg.v)-1) |-> <<tg.v[i], tg.v[i+1]>>]
+    IF tg.k \in {"pt", "cloud"}
+    THEN FoldLeft(LAMBDA acc, x : Append(acc, <<Sg(x), Sg(x)>>), <<>>, tg.v)
+    ELSE FoldLeft(LAMBDA acc, i : Append(acc, <<Sg(tg.v[i]), Sg(tg.v[i+1])>>), <<>>,
+                  [i \in 1..(Len(tg.v)-1) |-> i])
 TgtReps(tg) == IF tg.k \in {"pt", "cloud"} THEN {tg.v[i] : i \in 1..Len(tg.v)} ELSE {tg.v[1]}
 
-\* distance of edge i of the scene to the (possibly negated) target
-RECURSIVE MinOver(_, _, _, _)
-MinOver(tes, j, e, acc) ==
-    IF j > Len(tes) THEN acc
-    ELSE LET D == PairDesc(Sg(tes[j][1]), Sg(tes[j][2]), e[1], e[2])
-         IN  MinOver(tes, j + 1, e, IF j = 1 THEN D ELSE MinDesc2(acc, D))
-EdgeDesc(tes, e) == MinOver(tes, 1, e, Zero)
+\* distance of the edge e of the scene to the target: minimum over the target's edges
+EdgeDesc(tes, e) ==
+    MinTuple(FoldLeft(LAMBDA acc, te : Append(acc, PairDesc(te[1], te[2], e[1], e[2])), <<>>, tes))
+\* the descriptors of all edges of the scene as a tuple
+DescSeq(tes) == FoldLeft(LAMBDA acc, e : Append(acc, EdgeDesc(tes, e)), <<>>, AllEdges)
 
 LimDesc(l) == LET ix == SetToSortSeq(Valid(LimSeq[l]), <)
                   D == CosDesc(Pt(ix[1]), Pt(ix[2]))
@@ -227,19 +237,20 @@ FaceZero(f, e) ==
     IF FaceSide(f, e[1]) = 1 \/ FaceSide(f, e[2]) = 1 THEN 1
     ELSE IF e[1] = e[2] /\ FaceSide(f, e[1]) = -1 THEN -1 ELSE 0
 
+\* D: tuple of the descriptors of all edges, L: descriptor of the limit (both values)
+CaseFrom(D, L) ==
+    [op |-> "eq", w |-> 1, shapes |-> Shapes, tgt |-> Tgt, far |-> Far,
+     lt |-> [i \in 1..NE |-> Cardinality({j \in 1..NE : CmpDesc(D[j], D[i]) < 0})],
+     le |-> [i \in 1..NE |-> Cardinality({j \in 1..NE : CmpDesc(D[j], D[i]) <= 0})],
+     lim |-> LimPts(t[3]),
+     lc |-> [i \in 1..NE |-> CmpDesc(D[i], L)],
+     ins |-> [s \in 1..Len(Shapes) |-> InsideFlag(Shapes[s], Tgt)]]
 CaseW1 ==
     IF Tgt.k = "face"
     THEN [op |-> "eq", w |-> 1, shapes |-> Shapes, tgt |-> Tgt, far |-> FALSE,
           fz |-> [i \in 1..NE |-> FaceZero(Tgt.f, AllEdges[i])]]
-    ELSE LET tes == TgtEdgesOf(Tgt)
-             D == [i \in 1..NE |-> EdgeDesc(tes, AllEdges[i])]
-             L == LimDesc(t[3])
-         IN  [op |-> "eq", w |-> 1, shapes |-> Shapes, tgt |-> Tgt, far |-> Far,
-              lt |-> [i \in 1..NE |-> Cardinality({j \in 1..NE : CmpDesc(D[j], D[i]) < 0})],
-              le |-> [i \in 1..NE |-> Cardinality({j \in 1..NE : CmpDesc(D[j], D[i]) <= 0})],
-              lim |-> LimPts(t[3]),
-              lc |-> [i \in 1..NE |-> CmpDesc(D[i], L)],
-              ins |-> [s \in 1..Len(Shapes) |-> InsideFlag(Shapes[s], Tgt)]]
+    ELSE \* bound variables hold values: D and L are computed once
+         CHOOSE r \in UNION {{CaseFrom(D, L) : D \in {DescSeq(T)}, L \in {LimDesc(t[3])}} : T \in {TgtEdgesOf(Tgt)}} : TRUE
 
 EmitW1 == IF Full THEN PrintT(<<"CASE", ToJson(CaseW1)>>) ELSE TRUE
 
@@ -250,12 +261,11 @@ EmitW1 == IF Full THEN PrintT(<<"CASE", ToJson(CaseW1)>>) ELSE TRUE
 \* consistent under exchange of its arguments
 OracleOrder ==
     (Full /\ Tgt.k # "face") =>
-        LET tes == TgtEdgesOf(Tgt)
-            D == [i \in 1..NE |-> EdgeDesc(tes, AllEdges[i])]
-        IN  /\ \A i \in 1..NE : CmpDesc(D[i], D[i]) = 0
+        \A T \in {TgtEdgesOf(Tgt)} : \A D \in {DescSeq(T)} :
+            /\ \A i \in 1..NE : CmpDesc(D[i], D[i]) = 0
             /\ \A i \in 1..NE, j \in 1..NE : CmpDesc(D[i], D[j]) = -CmpDesc(D[j], D[i])
             /\ \A i \in 1..NE, j \in 1..NE, k \in 1..NE :
-                  (i < 8 /\ CmpDesc(D[i], D[j]) <= 0 /\ CmpDesc(D[j], D[k]) <= 0) => CmpDesc(D[i], D[k]) <= 0
+                  (i < 6 /\ CmpDesc(D[i], D[j]) <= 0 /\ CmpDesc(D[j], D[k]) <= 0) => CmpDesc(D[i], D[k]) <= 0
 \* point-to-point distances agree with Exact!CmpDist
 OracleAgreesWithExact ==
     (Full /\ Tgt.k = "pt" /\ ~Far) =>
